@@ -137,6 +137,16 @@ CHECKS = {
               "(2e-5), with a grafting type they are positively collinear; a parameter's update and state are unchanged by companions."),
         note="Trusted: nothing beyond the real code run twice; float64 roots under x64 keep the differential noise at 1e-7.",
         design="DESIGN.md section 3, C08"),
+    "C13": dict(
+        category="exploration",
+        technique="property-based differential testing of the real optimizer across device counts (jax.pmap on forced host CPU devices, jit under device meshes) plus exhaustive enumeration of the batch/unbatch index map",
+        text=("Generated trees/modes/histories are run on D in {1,2,3,4,5,7,8} devices (3 values per case; N mod D residues are "
+              "classified in the evidence) in full, int16-quantised, compressed, frequent-directions and eigh modes; replicas must be "
+              "byte-identical to each other and replica 0 equal to the single-device run; the sharded variant is compared across declared "
+              "device counts on 1-device and D-device meshes; unbatch(batch(xs, D)) is enumerated for all N <= 32, D <= 8 and six element "
+              "shapes (exhaustive)."),
+        note="Trusted: forced host-platform devices (index/padding/gather logic, not a real backend's collectives). Tolerance 1e-6 (1e-4 in batched-eigh and int16 modes), stated in evidence.assumptions.",
+        design="DESIGN.md section 3, C13"),
 }
 
 NOT_YET = {}
